@@ -2,6 +2,8 @@ package main
 
 import (
 	"fmt"
+	"io"
+	"sync/atomic"
 	"os"
 	"runtime/debug"
 	"sort"
@@ -11,9 +13,16 @@ import (
 	"golang.org/x/tools/go/ssa"
 )
 
+var smtLogN int32
+
 func NewExec(ld *Loaded, solverKind string, timeoutMs int) (*Exec, error) {
 	tt := NewTerms()
-	s, err := NewSolver(solverKind, tt, timeoutMs, nil)
+	var logw io.Writer
+	if p := os.Getenv("SYMGO_SMTLOG"); p != "" {
+		f, _ := os.Create(fmt.Sprintf("%s.%d", p, atomic.AddInt32(&smtLogN, 1)))
+		logw = f
+	}
+	s, err := NewSolver(solverKind, tt, timeoutMs, logw)
 	if err != nil {
 		return nil, err
 	}
@@ -26,6 +35,7 @@ func NewExec(ld *Loaded, solverKind string, timeoutMs int) (*Exec, error) {
 
 func (e *Exec) resetPath() {
 	e.pc = e.pc[:0]
+	e.pcSet = map[*Term]bool{}
 	e.pos = 0
 	e.gs = nil
 	e.cur = nil
